@@ -18,6 +18,9 @@ pub mod ctl {
         /// stop the process when the k-th mutating operation (0-based) is reached; for a write, after the
         /// given number of bytes; for create_dir_all, after that many directories
         pub crash: Option<(usize, usize)>,
+        /// the operation with this index, if it is a write, stores only the given number of bytes and then
+        /// fails (a disk that fills up); any other kind of operation at this index simply fails
+        pub partial: Option<(usize, usize)>,
     }
 
     pub struct State {
@@ -142,6 +145,18 @@ pub mod fs {
         if state.config.faults.contains(&index) {
             state.log.push(format!("{} err", head));
             return Err(injected());
+        }
+
+        if let Some((partial_index, partial_bytes)) = state.config.partial {
+            if partial_index == index {
+                if let Kind::Write(_, _) = kind {
+                    partial(partial_bytes);
+                    state.log.push(format!("{} part{}", head, partial_bytes));
+                } else {
+                    state.log.push(format!("{} err", head));
+                }
+                return Err(injected());
+            }
         }
 
         if kind.mutating() {
